@@ -128,3 +128,14 @@ var curatedGrammars = []string{
 	// long single production: table rows with two-digit states and terminals (row sharing keys)
 	"s = T B C D E F G H I J A K", "s = A B C D E F G H I J K L M N O P Q R S T U V | V U T S R Q P O N M L K J I H G F E D C B A",
 }
+
+// more than 256 terminals and more than 256 states: numbers that differ by a multiple of 256 in the
+// parser tables (row-sharing keys, byte-sized encodings)
+func init() {
+	var alts []string
+	for i := 0; i < 150; i++ {
+		alts = append(alts, fmt.Sprintf("K%d L%d", i, i))
+	}
+	curatedGrammars = append(curatedGrammars, "s = "+strings.Join(alts, " | "))
+}
+
